@@ -11,5 +11,5 @@ CONSTANTS
   Faults = {}
   BadMsgs = {FALSE}
   Prompt = FALSE
-INVARIANTS TypeOK BlockExactInit BlockExactEnd FinishExact NeverEarly InOrder RegisteredIff FailureOutcome FifoNoLoss NotToEarlierState Lockstep LockstepPrompt PromptExact
+INVARIANTS TypeOK BlockExactInit BlockExactEnd FinishExact NeverEarly InOrder RegisteredIff FailureOutcome FifoNoLoss NotToEarlierState Lockstep LockstepPrompt PromptExact DelayProtects InWindowDelivered
 PROPERTIES HandOffDiscipline Monotone
